@@ -1177,7 +1177,8 @@ def main():
     # mode 3: the receivers (tools/cxx2lean_rx.py)
     import cxx2lean_rx
     import cxx2lean_enc      # mode 4: the encoders (tools/cxx2lean_enc.py)
-    for name, job in cxx2lean_rx.JOBS + [("ENC", cxx2lean_enc.translate_encoders)]:
+    import cxx2lean_auth     # mode 5: the credential check (tools/cxx2lean_auth.py)
+    for name, job in cxx2lean_rx.JOBS + [("ENC", cxx2lean_enc.translate_encoders), ("AU", cxx2lean_auth.translate_auth)]:
         out = os.path.join(OUTDIR, name + ".lean")
         try:
             text = job()
